@@ -41,7 +41,11 @@ def run_one(mu: dict) -> dict:
     try:
         copy_tree(tmp)
         try:
-            for ed in mu["edits"]:
+            if mu.get("patch"):
+                r0 = subprocess.run(["patch", "-p1", "-s", "-d", tmp], stdin=open(mu["patch"]), capture_output=True, text=True)
+                if r0.returncode != 0:
+                    raise MutationError("patch does not apply: " + r0.stdout[-120:])
+            for ed in mu.get("edits", []):
                 apply_edit(os.path.join(tmp, ed[0]), ed[1], ed[2], *ed[3:])
         except (MutationError, FileNotFoundError, SyntaxError) as e:
             out.update(status="not-applicable", detail=f"edit could not be applied: {e}")
@@ -66,23 +70,46 @@ def run_one(mu: dict) -> dict:
         out["wall_s"] = round(time.time() - t0, 2)
 
 
-def run(props: List[str], jobs: int = 16, only: str = None) -> List[dict]:
+def archived_variants(props: List[str]) -> List[dict]:
+    """Independent seeded changes (must still be reported by the checks that reported them when they were
+    archived) and independent behaviour-preserving refactorings (must stay silent), replayed as patches."""
+    import glob
+    out = []
+    for d in sorted(glob.glob(os.path.join(VERIF, "seeded", "C*-*"))):
+        mp = os.path.join(d, "meta.json")
+        if not os.path.exists(mp):
+            continue
+        meta = json.load(open(mp))
+        for pid in meta.get("caught_by_now", meta.get("caught_by", [])):
+            if not props or pid in props:
+                out.append({"id": "seed-" + os.path.basename(d), "prop": pid, "kind": "break", "rule": None, "patch": os.path.join(d, "patch.diff")})
+    for d in sorted(glob.glob(os.path.join(VERIF, "seeded", "refactors", "*-*"))):
+        for pid in (props or []):
+            out.append({"id": "refactor-" + os.path.basename(d), "prop": pid, "kind": "twin", "rule": None, "patch": os.path.join(d, "patch.diff")})
+    return out
+
+
+def run(props: List[str], jobs: int = 16, only: str = None, archived: bool = False) -> List[dict]:
     sel = [m for m in MUTANTS if (not props or m["prop"] in props) and (only is None or m["id"] == only)]
+    if archived:
+        sel += [m for m in archived_variants(props) if only is None or m["id"] == only]
     with ThreadPoolExecutor(max_workers=jobs) as ex:
         return list(ex.map(run_one, sel))
 
 
 def main(argv):
-    props, jobs, only = [], 16, None
+    props, jobs, only, arch = [], 16, None, False
     i = 0
     while i < len(argv):
         if argv[i] == "--jobs":
             jobs = int(argv[i + 1]); i += 2
+        elif argv[i] == "--archived":
+            arch = True; i += 1
         elif argv[i] == "--only":
             only = argv[i + 1]; i += 2
         else:
             props.append(argv[i].upper()); i += 1
-    res = run(props, jobs, only)
+    res = run(props, jobs, only, arch)
     bad = 0
     for r in res:
         flag = "" if r["status"] in ("caught", "silent", "fail-closed") else "   <<<<<<"
